@@ -107,3 +107,14 @@ Theorem C03_single_spine_export_is_cell_by_cell : forall bad cells toks outs,
   exists s, run_rows bad init_state (one_spine cells) = IOk s /\ export_rows (i_doc s) default_opts = Ok (one_spine outs).
 Proof. exact one_spine_export. Qed.
 Print Assumptions C03_single_spine_export_is_cell_by_cell.
+
+(* the same statement read as C03: nothing dropped, invented or moved - for every imported document whose cells are in
+   normal form under the headers that govern them, whatever its spine structure, the exported grid IS the source grid
+   minus the '!!' lines and the all-null lines *)
+From KV Require Import GridTokensProofs GridIdentityProofs.
+Theorem C03_normal_document_exports_its_own_grid : forall bad text d, loads bad text = IOk d ->
+  forall sts, d_stages d = [0] :: sts ->
+  rows_normal bad d sts (filter nonempty_row (rows_of_text text)) ->
+  export_rows d default_opts = Ok (filter keep_row (map row_text (filter nonempty_row (rows_of_text text)))).
+Proof. exact export_of_normal_document. Qed.
+Print Assumptions C03_normal_document_exports_its_own_grid.
